@@ -9,6 +9,7 @@ import (
 	"fmt"
 	"sort"
 	"strings"
+	"time"
 
 	"github.com/kercylan98/vivid"
 	"github.com/kercylan98/vivid/internal/actor"
@@ -20,7 +21,7 @@ import (
 type params struct {
 	state  string // running | kill-now | kill-poison | killing-slow | fail-stop | fail-gstop | fail-restart | fail-grestart | fail-resume | killed | reused | never | zombie | sys-stopped | stash
 	prov   string // actorof-warm | actorof-cold | clone | parse | find
-	sender string // outside | sibling
+	sender string // outside | sibling | scheduled (a sibling hands the messages to the Scheduler: Once, 1..3 ms)
 	fine   bool   // lock / atomic operations of packages actor and mailbox are switch points too (preemption inside handlers and sends)
 }
 
@@ -49,7 +50,9 @@ func scenario(p params, bounds []int) *vexp.Scenario {
 			if d, ok := topDec[p.state]; ok {
 				// /p escalates the failure of its child t; the system's own strategy (the root's) decides for /p
 				sysOpts = append(sysOpts, vivid.WithActorSystemSupervisionStrategy(vivid.OneForOneStrategy(vivid.SupervisionStrategyDecisionMakerFN(
-					func(vivid.SupervisionContext) (vivid.SupervisionDecision, string) { return d, "scripted top-level decision" }))))
+					func(vivid.SupervisionContext) (vivid.SupervisionDecision, string) {
+						return d, "scripted top-level decision"
+					}))))
 			}
 			w := vsys.NewWorld(x, sysOpts...)
 			w.Quiet = true
@@ -82,12 +85,16 @@ func scenario(p params, bounds []int) *vexp.Scenario {
 				}
 			}
 			stashed := 0
+			stashedIDs := map[string]int{}
 			t.OnMsg = func(a *vsys.Act, ctx vivid.ActorContext, m vsys.Msg) {
 				switch {
 				case m.ID == "boom":
 					panic("scripted")
-				case (p.state == "stash" || p.state == "stash-restart") && strings.HasPrefix(m.ID, "m") && stashed < 2:
+				case m.ID == "unstash":
+					ctx.Unstash(5)
+				case (p.state == "stash" || p.state == "stash-restart" || p.state == "stash-unstash") && strings.HasPrefix(m.ID, "m") && stashed < 2:
 					stashed++
+					stashedIDs[m.ID]++
 					ctx.Stash()
 				}
 			}
@@ -145,6 +152,12 @@ func scenario(p params, bounds []int) *vexp.Scenario {
 					for i := 1; i <= 3; i++ {
 						id := fmt.Sprintf("m%d", i)
 						sent = append(sent, id)
+						if p.sender == "scheduled" {
+							if err := ctx.Scheduler().Once(sendRef, time.Duration(i)*time.Millisecond, vsys.Msg{ID: id}); err != nil {
+								x.Fail("harness", "Once: %v", err)
+							}
+							continue
+						}
 						ctx.Tell(sendRef, vsys.Msg{ID: id})
 					}
 				}
@@ -215,7 +228,7 @@ func scenario(p params, bounds []int) *vexp.Scenario {
 			entriesBefore := len(w.Entries)
 			// the sends, racing the transition
 			doSends := func() {
-				if p.sender == "sibling" {
+				if p.sender == "sibling" || p.sender == "scheduled" {
 					w.Sys.Tell(w.Ref("/snd"), vsys.Msg{ID: "go"})
 					return
 				}
@@ -238,6 +251,17 @@ func scenario(p params, bounds []int) *vexp.Scenario {
 				w.Sys.Tell(killRef, vsys.Msg{ID: "boom"})
 			}
 			vrt.QuiesceNoTimers()
+			if p.sender == "scheduled" {
+				// the jobs fire 1, 2 and 3 ms later
+				vrt.SetHorizon(vrt.Now() + int64(10*time.Millisecond))
+				vrt.Quiesce()
+				vrt.SetHorizon(0)
+			}
+			if p.state == "stash-unstash" {
+				// the stashed messages are put back: each of them is then processed (a second visit of the handler)
+				w.Sys.Tell(killRef, vsys.Msg{ID: "unstash"})
+				vrt.QuiesceNoTimers()
+			}
 			if p.state == "stash-restart" {
 				// the actor holds stashed mail when it fails on another message and is restarted: the stash belongs to the
 				// reference, it survives (and its content is accounted for like any other message)
@@ -268,7 +292,8 @@ func scenario(p params, bounds []int) *vexp.Scenario {
 			for _, pb := range w.Pubs[pubsBefore:] {
 				if pb.Type == "DeathLetter" || pb.Type == "DeathLetterEvent" {
 					for _, id := range append(append([]string(nil), sent...), "mself") {
-						if strings.HasPrefix(pb.Detail, "Msg("+id+")") {
+						// (a message that travelled through the Scheduler is dead-lettered in its wrapper)
+						if strings.HasPrefix(pb.Detail, "Msg("+id+")") || (strings.Contains(pb.Detail, "SchedulerMessage(") && strings.Contains(pb.Detail, " {"+id+"}})")) {
 							dead[id]++
 						}
 					}
@@ -290,6 +315,9 @@ func scenario(p params, bounds []int) *vexp.Scenario {
 			sort.Strings(ids)
 			for _, id := range ids {
 				s, d := seen[id], dead[id]
+				if p.state == "stash-unstash" {
+					s -= stashedIDs[id] // the visit in which it was stashed is not its processing
+				}
 				// a stashed message was seen once (when it was stashed) and sits in the stash: it
 				// counts as "stashed", and must not also be dead-lettered
 				switch {
@@ -310,14 +338,23 @@ func scenario(p params, bounds []int) *vexp.Scenario {
 			}
 			_ = stashBudget
 			// (an escalated graceful restart / stop concerns /p: its child t is terminated with it, conservation is all that is required there)
-			mustProcess := p.state == "fail-escalate-resume" || p.state == "running" || p.state == "pre-spawn-use" || p.state == "fail-resume" || p.state == "fail-restart" || p.state == "fail-grestart" ||
+			mustProcess := p.state == "stash-unstash" || p.state == "fail-escalate-resume" || p.state == "running" || p.state == "pre-spawn-use" || p.state == "fail-resume" || p.state == "fail-restart" || p.state == "fail-grestart" ||
 				(p.state == "reused" && (p.prov == "parse" || p.prov == "clone")) // FindActor returns the registered Ref object itself, bound to the old incarnation like the ActorOf reference
 			if mustProcess {
 				for _, id := range ids {
+					if p.state == "stash-unstash" {
+						if seen[id] != 1+stashedIDs[id] {
+							x.Fail("delivered-when-alive", "%s was sent to %s (stashed %d times, then un-stashed) but the handler saw it %d times (dead-lettered %d times)", id, target, stashedIDs[id], seen[id], dead[id])
+						}
+						continue
+					}
 					if seen[id] != 1 {
 						x.Fail("delivered-when-alive", "%s was sent to %s, which is alive (%s, reference: %s), but was processed %d times (dead-lettered %d times)", id, target, p.state, p.prov, seen[id], dead[id])
 					}
 				}
+			}
+			if p.state == "stash-unstash" && inStash != 0 {
+				x.Fail("stash-holds", "everything was un-stashed but the stash still holds %d messages", inStash)
 			}
 			if (p.state == "stash" || p.state == "stash-restart") && inStash != stashed {
 				x.Fail("stash-holds", "actor stashed %d messages but its stash holds %d", stashed, inStash)
@@ -344,7 +381,7 @@ func build(tier string) []*vexp.Scenario {
 		bounds = []int{0, 1, 2}
 	}
 	var out []*vexp.Scenario
-	states := []string{"fail-escalate-resume", "fail-escalate-grestart", "fail-escalate-gstop", "stash-restart", "stopping-paused", "running", "kill-now", "kill-poison", "killing-slow", "fail-stop", "fail-gstop", "fail-restart", "fail-grestart", "fail-resume", "killed", "reused", "zombie", "sys-stopped", "stash"}
+	states := []string{"stash-unstash", "fail-escalate-resume", "fail-escalate-grestart", "fail-escalate-gstop", "stash-restart", "stopping-paused", "running", "kill-now", "kill-poison", "killing-slow", "fail-stop", "fail-gstop", "fail-restart", "fail-grestart", "fail-resume", "killed", "reused", "zombie", "sys-stopped", "stash"}
 	provs := []string{"actorof-warm", "actorof-cold", "clone", "parse", "find"}
 	for _, st := range states {
 		for _, pv := range provs {
@@ -356,6 +393,12 @@ func build(tier string) []*vexp.Scenario {
 	for _, sd := range []string{"outside", "sibling"} {
 		out = append(out, scenario(params{state: "never", prov: "parse", sender: sd}, bounds))
 		out = append(out, scenario(params{state: "pre-spawn-use", prov: "parse", sender: sd}, bounds))
+	}
+	// the messages travel through the Scheduler (Once) of a sibling instead of Tell
+	for _, st := range []string{"running", "stash", "stash-unstash", "stash-restart", "kill-now", "fail-restart", "fail-stop", "killed"} {
+		for _, pv := range []string{"actorof-cold", "parse"} {
+			out = append(out, scenario(params{state: st, prov: pv, sender: "scheduled"}, bounds))
+		}
 	}
 	// preemption inside handlers and sends: the sends race the target's state change at lock / atomic granularity
 	for _, st := range states {
